@@ -9,6 +9,27 @@ import (
 // flag placement at a time, with all documents within <= 2 structural edits
 // of the example.
 func spines(c *ev.Ctx) {
+	ForEachSpine(func(root *gen.Node) bool {
+		if !c.Mine() {
+			return true
+		}
+		if c.Expired() {
+			return false
+		}
+		ex := exampleDoc(root)
+		docs := neighbours(ex, 2)
+		evalSchema(c, root, docs, false)
+		c.Inc("spine_schemas")
+		c.Max("max_spine_docs", int64(len(docs)))
+		return true
+	})
+}
+
+// ExampleDoc is the example of a rule-free schema as a document value.
+func ExampleDoc(n *gen.Node) *gen.JV { return exampleDoc(n) }
+
+// ForEachSpine enumerates the depth-5 spine schemas; f returns false to stop.
+func ForEachSpine(f func(root *gen.Node) bool) {
 	leafs := []*gen.Node{gen.Int("1"), gen.Str(`"s"`)}
 	for mask := 0; mask < 16; mask++ {
 		for _, leaf := range leafs {
@@ -55,18 +76,9 @@ func spines(c *ev.Ctx) {
 						levels = []int{0, 1, 2, 3, 4}
 					}
 					for _, lvl := range levels {
-						if !c.Mine() {
-							continue
-						}
-						if c.Expired() {
+						if !f(build(lvl, fl)) {
 							return
 						}
-						root := build(lvl, fl)
-						ex := exampleDoc(root)
-						docs := neighbours(ex, 2)
-						evalSchema(c, root, docs, false)
-						c.Inc("spine_schemas")
-						c.Max("max_spine_docs", int64(len(docs)))
 					}
 				}
 			}
